@@ -37,7 +37,7 @@ fn next_toward(x: f64, dir: f64) -> f64 {
     f64::from_bits(if up { b + 1 } else { b - 1 })
 }
 
-fn sampled(rng: &mut Rng) -> Scenario {
+pub(crate) fn sampled(rng: &mut Rng) -> Scenario {
     let m = gen_method(rng);
     let entry = if rng.bool(0.45) { Entry::Low } else { Entry::High };
     let (mut sc, p) = gen_admissible(rng, m, ProbClass::Smooth, entry, 20_000, &mut |rng, sc| {
